@@ -324,12 +324,12 @@ func checkWindowOrder(c *Ctx, prop string) {
 	for _, cl := range AllCallsDeep(ins) {
 		switch CalleeName(cl.Common()) {
 		case "builtin:copy":
-			dst, src := cl.Common().Args[0], cl.Common().Args[1]
+			dst, src := ArgK(cl, 0), ArgK(cl, 1)
 			if sl, ok := stripConv(dst).(*ssa.Slice); ok && sl.Low != nil && T(sl.Low).String() == "1" && strings.Contains(T(src).String(), "blockBFTInfos") && !strings.Contains(T(src).String(), "slice(") {
 				shift = true
 			}
 		case "builtin:append":
-			head, tail := T(cl.Common().Args[0]), T(cl.Common().Args[1])
+			head, tail := T(ArgK(cl, 0)), T(ArgK(cl, 1))
 			if head.Op == "list" && len(head.Args) == 1 && strings.Contains(tail.String(), "blockBFTInfos") && tail.Op != "slice" {
 				newestAtZero, shift = true, true
 			}
